@@ -86,6 +86,52 @@ def doubleOpsOk : RTy → Bool
   | .map _ v => doubleOpsOk v
   | _ => false
 
+/-- `BuilderItemConfig`: what one setter call of the staged builder takes for an element of a collection field -/
+inductive ItemCfg
+  | normal (t : RTy)                 -- `type = T`
+  | into (t : RTy)                   -- `type = T, into`
+  | serialize                        -- `impl Serialize`, stored as an `Any`
+  | collectSeq (item : RTy)          -- `impl IntoIterator<Item = X>`, `.collect()`
+  | collectMap (k v : RTy)           -- `impl IntoIterator<Item = (K, V)>`, `.collect()`
+deriving DecidableEq, Repr
+
+/-- `builder_item_config(this_type, def, key)` -/
+def builderItem (key : Bool) : CTy → ItemCfg
+  | .prim .string => .into (.leaf "String")
+  | .prim .binary => .into (.leaf "Bytes")
+  | .prim .any => .serialize
+  | .prim p => .normal (rustType key (.prim p))
+  | .optional t => .into (.option (rustType key t))
+  | .list t => .collectSeq (rustType key t)
+  | .set t => .collectSeq (rustType true t)
+  | .map k v => .collectMap (rustType true k) (rustType key v)
+  | .ref n => .normal (.leaf n)
+  | .ext fb => builderItem key fb
+
+/-- what the setter stores is an element of the field: `E` is the element type the field's Rust type prescribes -/
+def fits : ItemCfg → RTy → Bool
+  | .normal t, e => e == t
+  | .into t, e => e == t
+  | .serialize, e => e == .leaf "Any"
+  | .collectSeq x, e => e == .vec x || e == .set x
+  | .collectMap k v, e => e == .map k v
+
+/-- `BuilderConfig` of a field, as far as it names element types -/
+inductive FieldCfg
+  | list (item : ItemCfg)
+  | set (item : ItemCfg)
+  | map (key value : ItemCfg)
+  | other
+deriving DecidableEq, Repr
+
+/-- `builder_config(this_type, def)` -/
+def builderField : CTy → FieldCfg
+  | .list t => .list (builderItem false t)
+  | .set t => .set (builderItem true t)
+  | .map k v => .map (builderItem true k) (builderItem false v)
+  | .ext fb => builderField fb
+  | _ => .other
+
 def render : RTy → String
   | .f64 => "f64"
   | .doubleKey => "DoubleKey"
@@ -117,7 +163,26 @@ def rdTy : Nat → Sexp → Option CTy
   | f + 1, .list [.atom "x", t] => (rdTy f t).map .ext
   | _, _ => none
 
+def renderItem : ItemCfg → String
+  | .normal t => render t
+  | .into t => render t ++ ",into"
+  | .serialize => "Serialize"
+  | .collectSeq x => "Iter<" ++ render x ++ ">"
+  | .collectMap k v => "Iter<(" ++ render k ++ "," ++ render v ++ ")>"
+
+def renderField : FieldCfg → String
+  | .list i => "list:" ++ renderItem i
+  | .set i => "set:" ++ renderItem i
+  | .map k v => "map:" ++ renderItem k ++ ";" ++ renderItem v
+  | .other => "-"
+
 def handle : List String → String
+  | ["builder", t] =>
+    match parse t with
+    | some s => match rdTy 64 s with
+      | some t => renderField (builderField t)
+      | none => "bad-op"
+    | none => "bad-op"
   | ["rusttype", t] =>
     match parse t with
     | some s => match rdTy 64 s with
